@@ -322,11 +322,26 @@ func GenTrip(rng *rand.Rand, thorough bool, emit func(*Sx)) {
 		calls := []TripCall{{Kind: "mail", Arg: "sender@example.org"}, {Kind: "rcpt", Arg: "rcpt@example.net", RO: ro}, {Kind: "quit"}}
 		emit(RunTrip(TripCase{Cfg: cfg, Calls: calls, Extra: []*Sx{L(A("focus"), A("C14"))}}))
 	}
-	// MailOptions.Body (known finding F14)
-	for _, body := range []smtp.BodyType{smtp.Body7Bit, smtp.Body8BitMIME, smtp.BodyBinaryMIME} {
-		cfg := fullCfg(false)
-		calls := []TripCall{{Kind: "mail", Arg: "s@x", MO: &smtp.MailOptions{Body: body}}, {Kind: "quit"}}
-		emit(RunTrip(TripCase{Cfg: cfg, Calls: calls, Extra: []*Sx{L(A("focus"), A("C14"))}}))
+	// MailOptions.Body: unset, the three values, wrong case / unknown x server with / without BINARYMIME
+	// x Body alone / with every other MAIL option; after a non-BINARYMIME Body a whole transaction
+	// (RCPT, DATA), after BINARYMIME the RCPT and the DATA the server must refuse (502)
+	for _, bin := range []bool{true, false} {
+		for _, body := range []smtp.BodyType{"", smtp.Body7Bit, smtp.Body8BitMIME, smtp.BodyBinaryMIME, "binarymime", "7bit", "X", "8BITMIME "} {
+			for variant := 0; variant < 3; variant++ {
+				cfg := fullCfg(false)
+				cfg.BinaryMIME = bin
+				mo := &smtp.MailOptions{Body: body}
+				if variant >= 1 {
+					mo.Size, mo.UTF8, mo.Return, mo.EnvelopeID, mo.Auth = 1000, true, smtp.DSNReturnFull, "id+1", sp("a@example.com")
+				}
+				calls := []TripCall{{Kind: "mail", Arg: "s@x", MO: mo}, {Kind: "quit"}}
+				if variant == 2 {
+					calls = []TripCall{{Kind: "mail", Arg: "s@x", MO: mo}, {Kind: "rcpt", Arg: "r@x"},
+						{Kind: "data", Parts: [][]byte{[]byte("caf\xe9\r\n")}, Closes: 1}, {Kind: "quit"}}
+				}
+				emit(RunTrip(TripCase{Cfg: cfg, Calls: calls, Extra: []*Sx{L(A("focus"), A("C14"))}}))
+			}
+		}
 	}
 
 	// ---- C16: bodies x Write partitions x verdict x SMTP/LMTP, Close twice ----
